@@ -303,6 +303,25 @@ def ws_all(b, w):
             if st["k"] == "assign" and place_target(b, st["pl"]) == w]
 
 
+def check_contains_or_add(rep, fl, rule="R13.6"):
+    facts = fl.facts
+    # contains_or_add: contains -> false ; else add, true
+    cb = facts.body(BLOOM + "::contains_or_add")
+    at, entry = dataflow(cb)
+    ad = calls_to(cb, BLOOM + "::add")
+    ok = len(ad) == 1
+    if ok:
+        h = V("hash")
+        want = ("not", ("atom", ("call", BLOOM + "::contains", (V("self"), h))))
+        ok = all(feval(want, s) is True for s in at.get((ad[0][0], term_idx(cb, ad[0][0])), set())) and norm(cb.call_args(ad[0][1])[1]) == h
+        # return value: true iff added
+        for rbi, rsi in cb.defs.get(0, []):
+            e = norm(cb.def_expr(rbi, rsi, True))
+            added = rbi in cb.reachable(ad[0][0])
+            ok = ok and e == ("const", 1 if added else 0, "bool")
+    rep.check(ok, rule, fl, cb, "contains_or_add", "adds exactly when absent and returns whether it added", "contains_or_add does not add-when-absent / report it")
+
+
 def check_tinylfu(rep, fl):
     facts = fl.facts
     dk = norm(F(V("self"), "doorkeeper"))
@@ -350,21 +369,7 @@ def check_tinylfu(rep, fl):
                         ok = ok and must_pass_through(inc, [ci[0][0]], from_bi=tgt)
     rep.check(ok, "R13.6", fl, inc, "increment", "first sighting goes to the doorkeeper, later ones to the sketch; try_reset runs on every path",
               "TinyLFU::increment no longer records repeated sightings in the sketch / ages on every recording")
-    # contains_or_add: contains -> false ; else add, true
-    cb = facts.body(BLOOM + "::contains_or_add")
-    at, entry = dataflow(cb)
-    ad = calls_to(cb, BLOOM + "::add")
-    ok = len(ad) == 1
-    if ok:
-        h = V("hash")
-        want = ("not", ("atom", ("call", BLOOM + "::contains", (V("self"), h))))
-        ok = all(feval(want, s) is True for s in at.get((ad[0][0], term_idx(cb, ad[0][0])), set())) and norm(cb.call_args(ad[0][1])[1]) == h
-        # return value: true iff added
-        for rbi, rsi in cb.defs.get(0, []):
-            e = norm(cb.def_expr(rbi, rsi, True))
-            added = rbi in cb.reachable(ad[0][0])
-            ok = ok and e == ("const", 1 if added else 0, "bool")
-    rep.check(ok, "R13.6", fl, cb, "contains_or_add", "adds exactly when absent and returns whether it added", "contains_or_add does not add-when-absent / report it")
+    check_contains_or_add(rep, fl)
     # try_reset: w += 1; reset iff w >= samples
     tr = facts.body(TLFU + "::try_reset")
     at, entry = dataflow(tr)
@@ -545,6 +550,8 @@ def check_C14(rep, fl):
             ok = is_call(recv, "iter_mut") and norm(recv[2][0]) == norm(F(V("self"), "bitset")) and len(ws) == 1 and \
                 norm(it.body.rvalue_expr(ws[0][2]["rv"], True)) == ("const", 0, "u64") and it.is_elem(place_target(it.body, ws[0][2]["pl"])) and it.every_round([ws[0][0]]) and must_pass_through(it.body, [it.nbi])
         rep.check(ok, "R14.4", fl, b, "zero all words", "%s zeroes every word of the bit array" % meth, "Bloom::%s does not zero every word" % meth)
+    # the doorkeeper's one entry point: present -> false, absent -> add and true
+    check_contains_or_add(rep, fl, rule="R14.2")
     # ---- R14.5 sizing ---------------------------------------------------------------------------
     check_bloom_sizing(rep, fl, so if so is not None else None)
     # ---- R14.6 recorded only -------------------------------------------------------------------
